@@ -520,7 +520,7 @@ theorem phi_stepMain (cfg : Cfg) (s s' : State) (h : stepMain cfg s = some s')
       cases h
       refine phi_main_same rfl rfl ?_
       simp only [hm, mrankAux]
-      cases cfg.wait <;> cases hd : isDone s i <;> simp [mrankAux, hd]
+      cases cfg.wait <;> cases hd : isDone s i <;> simp [hd]
   case kSAcq i =>
     split at h
     · rename_i p hp
